@@ -42,6 +42,20 @@ def kwargs_for(codec: str, side: str) -> Dict[str, Any]:
         enc, dec = _classes(pjrpc.common.JSONEncoder)
     if codec == 'classes':
         return {'json_encoder': enc, 'json_decoder': dec}
+    if codec == 'cls-ignoring':
+        # an adapter for a faster JSON library: it cannot use encoder classes, so it ignores `cls` and knows plain JSON (+ Decimal) only.
+        # Only for differential use (C11): the library itself relies on `cls` for some error payloads, both halves alike.
+        def plain_loader(text: Any, cls: Any = None) -> Any:
+            return json.loads(text, parse_float=decimal.Decimal)
+
+        def _default(o: Any) -> Any:
+            if isinstance(o, decimal.Decimal):
+                return f'decimal:{o}'
+            raise TypeError(f'Object of type {type(o).__name__} is not JSON serializable')
+
+        def plain_dumper(obj: Any, cls: Any = None) -> str:
+            return json.dumps(obj, default=_default)
+        return {'json_loader': plain_loader, 'json_dumper': plain_dumper}
 
     # the documented calling convention is loader(text, cls=decoder) / dumper(obj, cls=encoder): nothing else is accepted
     def loader(text: Any, cls: Any = None) -> Any:
